@@ -163,31 +163,7 @@ func findContainments(fn *ssa.Function) []Containment {
 				continue
 			}
 			// tests on the result
-			_, eqF := condEdges(fn, func(c ssa.Value) bool {
-				bo, ok := c.(*ssa.BinOp)
-				if !ok || bo.Op != token.EQL {
-					return false
-				}
-				s, ok1 := constString(bo.Y)
-				return ok1 && s == ".." && bo.X == rel
-			})
-			neT, _ := condEdges(fn, func(c ssa.Value) bool {
-				bo, ok := c.(*ssa.BinOp)
-				if !ok || bo.Op != token.NEQ {
-					return false
-				}
-				s, ok1 := constString(bo.Y)
-				return ok1 && s == ".." && bo.X == rel
-			})
-			notDotDot := append(eqF, neT...)
-			_, hpF := condEdges(fn, func(c ssa.Value) bool {
-				cl, ok := c.(*ssa.Call)
-				if !ok || !isFunc(calleeObj(cl), "strings", "HasPrefix") || cl.Call.Args[0] != rel {
-					return false
-				}
-				s, ok1 := constString(cl.Call.Args[1])
-				return ok1 && (s == "../" || s == `..\`)
-			})
+			notDotDot, hpF := dotDotEdges(fn, func(v ssa.Value) bool { return v == rel })
 			// segment-wise form: the first element of the result split at the separator is not ".."
 			isFirstSeg := func(v ssa.Value) bool {
 				switch x := v.(type) {
@@ -273,31 +249,7 @@ func findContainments(fn *ssa.Function) []Containment {
 				}
 			}
 			if joined != nil {
-				_, jEqF := condEdges(fn, func(c ssa.Value) bool {
-					bo, ok := c.(*ssa.BinOp)
-					if !ok || bo.Op != token.EQL {
-						return false
-					}
-					s, ok1 := constString(bo.Y)
-					return ok1 && s == ".." && bo.X == joined
-				})
-				jNeT, _ := condEdges(fn, func(c ssa.Value) bool {
-					bo, ok := c.(*ssa.BinOp)
-					if !ok || bo.Op != token.NEQ {
-						return false
-					}
-					s, ok1 := constString(bo.Y)
-					return ok1 && s == ".." && bo.X == joined
-				})
-				_, jHpF := condEdges(fn, func(c ssa.Value) bool {
-					cl, ok := c.(*ssa.Call)
-					if !ok || !isFunc(calleeObj(cl), "strings", "HasPrefix") || cl.Call.Args[0] != joined {
-						return false
-					}
-					s, ok1 := constString(cl.Call.Args[1])
-					return ok1 && (s == "../" || s == `..\`)
-				})
-				jnd := append(jEqF, jNeT...)
+				jnd, jHpF := dotDotEdges(fn, func(v ssa.Value) bool { return v == joined })
 				if len(jnd) > 0 || len(jHpF) > 0 {
 					okE2, _ := okEdgesOfCall(call)
 					k := Containment{Fn: fn, Kind: "reljoin", Subject: joined, Root: call.Call.Args[0], At: call, Conj: [][]Edge{okE2, jnd, jHpF}}
@@ -335,6 +287,131 @@ func findContainments(fn *ssa.Function) []Containment {
 		}
 	}
 	return out
+}
+
+// dotDotEdges finds, in fn, the edges on which a subject string (any value for
+// which isSubj holds) is known not to be ".." (nd) and not to start with "../"
+// (np): the false edge of `subj == ".."`, the true edge of `subj != ".."`, the
+// false edge of strings.HasPrefix(subj, "../"), and the false edge of a call
+// to a module helper func(…string…) bool whose result is true whenever the
+// corresponding test of its parameter is true (helperImplies).
+func dotDotEdges(fn *ssa.Function, isSubj func(ssa.Value) bool) (nd, np []Edge) {
+	isDD := func(v ssa.Value, subj func(ssa.Value) bool) (eq, ne bool) {
+		bo, ok := v.(*ssa.BinOp)
+		if !ok || (bo.Op != token.EQL && bo.Op != token.NEQ) {
+			return
+		}
+		x, y := bo.X, bo.Y
+		if _, isC := x.(*ssa.Const); isC {
+			x, y = y, x
+		}
+		s, ok1 := constString(y)
+		if !ok1 || s != ".." || !subj(x) {
+			return
+		}
+		return bo.Op == token.EQL, bo.Op == token.NEQ
+	}
+	isHP := func(v ssa.Value, subj func(ssa.Value) bool) bool {
+		cl, ok := v.(*ssa.Call)
+		if !ok || !isFunc(calleeObj(cl), "strings", "HasPrefix") || !subj(cl.Call.Args[0]) {
+			return false
+		}
+		s, ok1 := constString(cl.Call.Args[1])
+		return ok1 && (s == "../" || s == `..\`)
+	}
+	_, eqF := condEdges(fn, func(c ssa.Value) bool { eq, _ := isDD(c, isSubj); return eq })
+	neT, _ := condEdges(fn, func(c ssa.Value) bool { _, ne := isDD(c, isSubj); return ne })
+	nd = append(eqF, neT...)
+	_, np = condEdges(fn, func(c ssa.Value) bool { return isHP(c, isSubj) })
+	// boolean helpers
+	for _, wantHP := range []bool{false, true} {
+		_, hF := condEdges(fn, func(c ssa.Value) bool {
+			cl, ok := c.(*ssa.Call)
+			if !ok {
+				return false
+			}
+			h := cl.Call.StaticCallee()
+			if h == nil || len(h.Blocks) == 0 || h.Signature.Results().Len() != 1 || !isBoolType(h.Signature.Results().At(0).Type()) {
+				return false
+			}
+			for i, a := range cl.Call.Args {
+				if i >= len(h.Params) || !isSubj(a) {
+					continue
+				}
+				prm := h.Params[i]
+				onPrm := func(v ssa.Value) bool { return v == ssa.Value(prm) }
+				atom := func(v ssa.Value) bool {
+					if wantHP {
+						return isHP(v, onPrm)
+					}
+					eq, _ := isDD(v, onPrm)
+					return eq
+				}
+				if helperImplies(h, atom) {
+					return true
+				}
+			}
+			return false
+		})
+		if wantHP {
+			np = append(np, hF...)
+		} else {
+			nd = append(nd, hF...)
+		}
+	}
+	return
+}
+
+// helperImplies: the boolean function h returns true whenever the test `atom`
+// (a condition over h's parameters) is true. Decided structurally on every
+// return value: the atom itself; a constant true; a phi each of whose incoming
+// values is such or arrives from a block only reachable with the atom false.
+func helperImplies(h *ssa.Function, atom func(ssa.Value) bool) bool {
+	_, atomFalse := condEdges(h, atom)
+	var imp func(v ssa.Value, at *ssa.BasicBlock, seen map[ssa.Value]bool) bool
+	imp = func(v ssa.Value, at *ssa.BasicBlock, seen map[ssa.Value]bool) bool {
+		if b, isB := constBool(v); isB && b {
+			return true
+		}
+		if atom(v) {
+			return true
+		}
+		if at != nil && len(atomFalse) > 0 && guarded(at, atomFalse) {
+			return true
+		}
+		ph, ok := v.(*ssa.Phi)
+		if !ok || seen[v] {
+			return false
+		}
+		seen[v] = true
+		for i, e := range ph.Edges {
+			pred := ph.Block().Preds[i]
+			if imp(e, pred, seen) {
+				continue
+			}
+			// the edge pred -> phi block itself may be an atom-false edge
+			isAF := false
+			for _, af := range atomFalse {
+				if af.From == pred && pred.Succs[af.Succ] == ph.Block() && pred.Succs[1-af.Succ] != ph.Block() {
+					isAF = true
+				}
+			}
+			if !isAF {
+				return false
+			}
+		}
+		return true
+	}
+	rets := returnsOf(h)
+	if len(rets) == 0 {
+		return false
+	}
+	for _, r := range rets {
+		if len(r.Results) != 1 || !imp(r.Results[0], r.Block(), map[ssa.Value]bool{}) {
+			return false
+		}
+	}
+	return true
 }
 
 // established: inside-ness of k holds whenever block b executes.
@@ -458,4 +535,43 @@ func flagReasons(v ssa.Value, seen map[ssa.Value]bool) (out []flagReason, ok boo
 		return out, ok
 	}
 	return nil, false
+}
+
+// anyTrueEdges: the edges on which at least one condition satisfying match is
+// known to be true — the true edge of an If on such a condition, and the true
+// edge of an If on a boolean built from such conditions alone by || (a phi all
+// of whose ways of becoming true are matching tests, see flagReasons).
+func anyTrueEdges(fn *ssa.Function, match func(ssa.Value) bool) []Edge {
+	var out []Edge
+	for _, b := range fn.Blocks {
+		if len(b.Instrs) == 0 {
+			continue
+		}
+		ifi, ok := b.Instrs[len(b.Instrs)-1].(*ssa.If)
+		if !ok {
+			continue
+		}
+		cond, neg := stripNot(ifi.Cond)
+		okc := match(cond)
+		if !okc {
+			if _, isPhi := cond.(*ssa.Phi); isPhi {
+				rs, okF := flagReasons(cond, map[ssa.Value]bool{})
+				okc = okF && len(rs) > 0
+				for _, r := range rs {
+					if !match(r.Cond) {
+						okc = false
+					}
+				}
+			}
+		}
+		if !okc {
+			continue
+		}
+		t := 0
+		if neg {
+			t = 1
+		}
+		out = append(out, Edge{b, t})
+	}
+	return out
 }
